@@ -59,7 +59,7 @@ def r7_edge_clamps(ck, P):
     R = ck.rule('C04-R7', 'each edge rasteriser clamps the left coordinate at 0 and the right one at bits.width, and touches a row only where rx > lx', floor=18)
     for f in rasterisers(P):
         ck.saw(f)
-        lx = rx = None
+        lx = rx = None; rx_value_ok = True
         for x in f.insts():
             if x.op != 'phi' or len(x.a) != 2:
                 continue
@@ -90,11 +90,19 @@ def r7_edge_clamps(ck, P):
                             and l_op is not None and l_op.op == 'ashr' and l_op.a[1][0] == 'c' and l_op.a[1][1] == 16 and f.strip_casts(l_op.a[0]) == f.strip_casts(raw)
                         if exact:
                             rx = x
+                            # the value substituted: width itself for 1-bit masks, the last sub-pixel position of the last pixel (width - e)
+                            # for deeper masks, whose trailing partial-coverage update would otherwise read-modify-write the byte after the row
+                            cv = f.v(f.strip_casts(clamp))
+                            minus_e = cv is not None and ((cv.op == 'sub' and cv.a[1][0] == 'c' and int(cv.a[1][1]) == 1) or (cv.op == 'add' and cv.a[1][0] == 'c' and int(cv.a[1][1]) == -1))
+                            deep = not f.name.rstrip('_accessors').endswith('_1') and not f.name.endswith('edges_1')
+                            rx_value_ok = minus_e if deep else True
         if lx is not None:
             ck.ok(R, '%s/%s: left coordinate clamped at 0' % (f.unit.name, f.name))
         else:
             ck.violation(R, f.name, 'left clamp (%s)' % f.unit.name, '%s does not clamp a negative left edge coordinate to 0: pixels before the row start are written' % f.name, '%s:%d' % (f.unit.name, f.line))
-        if rx is not None:
+        if rx is not None and not rx_value_ok:
+            ck.violation(R, f.name, 'right clamp value (%s)' % f.unit.name, '%s clamps the right coordinate to the first position after the row instead of the last position inside it (width - 1/65536): the partial-coverage update of the right end then reads and rewrites the pixel after the scanline - another image\'s byte when rows or sub-images are adjacent' % f.name, rx.loc())
+        elif rx is not None:
             ck.ok(R, '%s/%s: right coordinate clamped at bits.width' % (f.unit.name, f.name))
         else:
             ck.violation(R, f.name, 'right clamp (%s)' % f.unit.name, '%s does not clamp the right edge coordinate to the image width: pixels past the row end are written' % f.name, '%s:%d' % (f.unit.name, f.line))
